@@ -2,7 +2,7 @@
    "In every process" is represented by "for every oracle (= iteration order) at the modelled sites". *)
 From Coq Require Import String List Bool ZArith Permutation.
 Import ListNotations.
-Require Import V.Lib.PyStr V.Lib.JTree V.Det.Model V.Det.Proofs.
+Require Import V.Lib.PyStr V.Lib.JTree V.Det.Model V.Det.Proofs V.Det.Congr V.Det.Refs V.Det.Naming.
 Open Scope string_scope.
 Open Scope list_scope.
 
@@ -66,6 +66,91 @@ Theorem C15_perm_invariant_memo : forall piD piD' v,
 Proof. intros piD piD' v H1 H2. exact (ser_perm_invariant piD piD' H1 H2 v). Qed.
 Print Assumptions C15_perm_invariant_memo.
 
+(* ---------------------------------------------------------------- the WHOLE layered dictionary *)
+(* "equal up to the order of dictionary entries at every depth" is an equivalence relation, it is
+   equality for every reader that goes through keys (what is read at a path is again jperm-related;
+   a scalar is EQUAL), so "the same dictionary in every process" can be stated with it. *)
+Theorem C15_jperm_equivalence :
+  (forall a, jperm a a) /\
+  (forall a b, jperm a b -> jperm b a) /\
+  (forall a b c, jperm a b -> jperm b c -> jperm a c) /\
+  (forall p a b, jperm a b -> wfk a ->
+     match get_path p a, get_path p b with
+     | Some x, Some y => jperm x y
+     | None, None => True
+     | _, _ => False
+     end) /\
+  (forall a b, jperm a b -> scalar a -> b = a).
+Proof.
+  split; [exact JP_refl|]. split; [exact jperm_sym|]. split; [exact jperm_trans|].
+  split; [exact jperm_get_path|exact jperm_scalar].
+Qed.
+Print Assumptions C15_jperm_equivalence.
+
+(* override_object is a congruence for jperm in BOTH arguments, under any two iteration orders of
+   the novel keys: key-permuted but equal arguments give both an error or key-permuted but equal
+   results (new without repeated keys; nothing is asked of old). *)
+Theorem C15_override_congruence : forall piK piK' old old' new new',
+  perm_oracle piK -> perm_oracle piK' -> jperm old old' -> jperm new new' -> wfk new ->
+  match override_pi piK old new, override_pi piK' old' new' with
+  | Some a, Some b => jperm a b
+  | None, None => True
+  | _, _ => False
+  end.
+Proof. intros piK piK' old old' new new' H1 H2. exact (override_congr piK piK' H1 H2 old old' new new'). Qed.
+Print Assumptions C15_override_congruence.
+
+(* The whole dictionary of layered user variables (the fold of override_object over the files in
+   the order given), not only its leaves: two processes that use any two iteration orders inside
+   every override_object call AND read key-permuted but equal files either both fail or obtain
+   the same dictionary up to the order of entries at every depth. *)
+Theorem C15_perm_invariant_layering : forall piK piK' (read read' : string -> jv) files,
+  perm_oracle piK -> perm_oracle piK' ->
+  (forall f, In f files -> wfk (read f)) ->
+  (forall f, In f files -> jperm (read f) (read' f)) ->
+  match load_variables piK read files, load_variables piK' read' files with
+  | Some r, Some r' => jperm r r'
+  | None, None => True
+  | _, _ => False
+  end.
+Proof. exact load_variables_congr. Qed.
+Print Assumptions C15_perm_invariant_layering.
+
+(* ---------------------------------------------------------------- S5: output references -> data references *)
+(* The repaired loop (sorted set): the arguments do not depend on the iteration order of the set. *)
+Theorem C15_perm_invariant_replace : forall piS piS' refs args,
+  perm_oracle piS -> perm_oracle piS' ->
+  replace_refs_sorted piS refs args = replace_refs_sorted piS' refs args.
+Proof. exact replace_refs_sorted_invariant. Qed.
+Print Assumptions C15_perm_invariant_replace.
+
+(* Under separation of the reference strings (every reference string occurs in the arguments only
+   as the tokens equal to it, whatever tokens have been replaced already: not inside another
+   reference, not inside a replacement, not across a boundary; decidable, V.Args.Model.separatedb)
+   the loop computes the SIMULTANEOUS substitution of the tokens, in every iteration order: the pinned
+   loop over the unsorted set was order independent on such inputs, and the sorted order chosen by
+   the repair gives the intended result.  Without separation: C15_replace_set_order_refuted. *)
+Theorem C15_replace_separated : forall piS refs ps,
+  perm_oracle piS -> refs_separatedb refs ps = true ->
+  replace_refs piS refs (AM.flatten ps) = AM.spec (ref_drefs refs) ps /\
+  replace_refs_sorted piS refs (AM.flatten ps) = AM.spec (ref_drefs refs) ps.
+Proof.
+  intros piS refs ps H S. split; [exact (replace_refs_spec piS refs ps H S)|exact (replace_refs_sorted_spec piS refs ps H S)].
+Qed.
+Print Assumptions C15_replace_separated.
+
+(* ---------------------------------------------------------------- S6: DSL 2 component / environment names *)
+(* The names given to the components (traversal of the workflows, de-duplication with roman
+   numerals, stage prefix) and to the environments (first use) by namespace_to_flowir are functions
+   of the document without any oracle, and they do not depend on the order in which the keys of the
+   mappings of the document are written: `steps` of every workflow (read by lookups only) and every
+   environment (hashed after sorting).  Lists (workflows, components, execute) are ordered data. *)
+Theorem C15_naming_invariant :
+  (forall d d', ns_rel d d' -> dsl_names d = dsl_names d') /\
+  (forall envs envs', Forall2 env_rel envs envs' -> env_names [] envs = env_names [] envs').
+Proof. split; [exact dsl_names_rel|]. intros envs envs' H. exact (env_names_rel envs envs' H []). Qed.
+Print Assumptions C15_naming_invariant.
+
 (* non-vacuity: three files a, b, c given as [a; b; c; a]; x is defined by all of them, y only by b.
    The hypotheses hold, the loader succeeds, x comes from a (the last one given), y from b; reversing
    every iteration order changes nothing; the memo buffer of a permuted dictionary is the same. *)
@@ -98,4 +183,79 @@ Proof.
   - reflexivity.
   - reflexivity.
   - reflexivity.
+Qed.
+
+(* non-vacuity of the new hypotheses: two key-permuted but equal files (at two depths) are jperm and
+   without repeated keys, the loader succeeds on both and the results are different terms; two output
+   references of a DSL component are separated in its arguments and the loop gives the expected text. *)
+Definition ex_read' (f : string) : jv :=
+  if String.eqb f "a" then JDict [("stages", JDict [("0", JDict [("z", JInt 1)])]); ("global", JDict [("x", JStr "A")])]
+  else if String.eqb f "b" then JDict [("global", JDict [("x", JStr "B"); ("y", JStr "B")]);
+                                       ("stages", JDict [("1", JDict [("z", JInt 3)]); ("0", JDict [("z", JInt 2)])])]
+  else JDict [("global", JDict [("x", JStr "C")])].
+
+Definition ex_refs : list (string * string) :=
+  [("<entry-instance/a>:ref", "stage0.a:ref"); ("<entry-instance/b>/out.txt:ref", "stage0.b/out.txt:ref")].
+Definition ex_ps : list AM.piece :=
+  [AM.Lit "cat "; AM.Tok "<entry-instance/b>/out.txt:ref"; AM.Lit " "; AM.Tok "<entry-instance/a>:ref";
+   AM.Lit " "; AM.Tok "<entry-instance/b>/out.txt:ref"].
+
+Example C15_nonvacuous_whole :
+  (forall f, jperm (ex_read f) (ex_read' f)) /\
+  (exists r r', load_variables id_oracle ex_read ["a"; "b"; "c"; "a"] = Some r /\
+                load_variables (@rev _) ex_read' ["a"; "b"; "c"; "a"] = Some r' /\ r <> r' /\ jperm r r') /\
+  refs_separatedb ex_refs ex_ps = true /\
+  replace_refs (@rev _) ex_refs (AM.flatten ex_ps) = "cat stage0.b/out.txt:ref stage0.a:ref stage0.b/out.txt:ref" /\
+  replace_refs_sorted id_oracle ex_refs (AM.flatten ex_ps) = "cat stage0.b/out.txt:ref stage0.a:ref stage0.b/out.txt:ref".
+Proof.
+  assert (J : forall f, jperm (ex_read f) (ex_read' f)).
+  { intros f. unfold ex_read, ex_read'. destruct (String.eqb f "a"); [|destruct (String.eqb f "b")].
+    - eapply JP_dict; [apply eperm_refl|apply perm_swap].
+    - eapply JP_dict; [|apply perm_swap].
+      constructor; [eapply JP_dict; [apply eperm_refl|apply perm_swap]|].
+      constructor; [eapply JP_dict; [apply eperm_refl|apply perm_swap]|constructor].
+    - apply JP_refl. }
+  split; [exact J|]. split; [|split; [vm_compute; reflexivity|split; vm_compute; reflexivity]].
+  destruct (load_variables id_oracle ex_read ["a"; "b"; "c"; "a"]) as [r|] eqn:R; [|vm_compute in R; discriminate].
+  destruct (load_variables (@rev _) ex_read' ["a"; "b"; "c"; "a"]) as [r'|] eqn:R'; [|vm_compute in R'; discriminate].
+  exists r, r'. split; [reflexivity|]. split; [reflexivity|]. split.
+  - vm_compute in R, R'. inversion R; inversion R'; subst. discriminate.
+  - pose proof (C15_perm_invariant_layering id_oracle (@rev _) ex_read ex_read' ["a"; "b"; "c"; "a"]
+                  id_perm_oracle rev_perm_oracle) as T.
+    rewrite R, R' in T. apply T.
+    + intros f _. pose proof C15_nonvacuous as NV. cbv zeta in NV. exact (proj1 NV f).
+    + intros f _. exact (J f).
+Qed.
+
+(* non-vacuity of C15_naming_invariant: a namespace with a nested workflow used twice and repeated
+   step names, its steps mappings written in two key orders; three environments, two of them equal up
+   to key order and None values *)
+Definition ex_ns (flip : bool) : ns :=
+  let o (l : list (string * string)) := if flip then rev l else l in
+  mk_ns [mk_wf "main" (o [("sb", "inner"); ("sa", "echo"); ("stage1.sa", "inner")]) ["sa"; "sb"; "stage1.sa"];
+         mk_wf "inner" (o [("greet", "echo"); ("sa", "echo")]) ["greet"; "sa"]]
+        ["echo"] "main".
+
+Example C15_nonvacuous_naming :
+  ns_rel (ex_ns false) (ex_ns true) /\ ex_ns false <> ex_ns true /\
+  dsl_names (ex_ns true) =
+    Some [(["entry-instance"; "sa"], (0%N, "sa"));
+          (["entry-instance"; "sb"; "sa"], (0%N, "sa-I")); (["entry-instance"; "sb"; "greet"], (0%N, "greet"));
+          (["entry-instance"; "stage1.sa"; "sa"], (0%N, "sa-II")); (["entry-instance"; "stage1.sa"; "greet"], (0%N, "greet-I"))] /\
+  Forall2 env_rel [Some [("B", Some "1"); ("A", None)]; None; Some [("A", Some "x")]; Some [("A", Some "1")]]
+                  [Some [("A", None); ("B", Some "1")]; None; Some [("A", Some "x")]; Some [("A", Some "1")]] /\
+  env_names [] [Some [("B", Some "1"); ("A", None)]; None; Some [("A", Some "x")]; Some [("A", None); ("B", Some "1")]] =
+    [Some "env0"; None; Some "env1"; Some "env0"].
+Proof.
+  split; [|split; [discriminate|split; [vm_compute; reflexivity|split; [|vm_compute; reflexivity]]]].
+  - split; [|split; reflexivity]. cbn.
+    constructor; [|constructor; [|constructor]].
+    + split; [reflexivity|]. split; [reflexivity|]. split; [apply Permutation_rev|].
+      cbn. repeat constructor; cbn; intuition discriminate.
+    + split; [reflexivity|]. split; [reflexivity|]. split; [apply Permutation_rev|].
+      cbn. repeat constructor; cbn; intuition discriminate.
+  - constructor; [|constructor; [exact I|constructor; [|constructor; [|constructor]]]].
+    + split; [apply perm_swap|]. cbn. repeat constructor; cbn; intuition discriminate.
+    + split; [apply Permutation_refl|]. cbn. repeat constructor; cbn; tauto.
+    + split; [apply Permutation_refl|]. cbn. repeat constructor; cbn; tauto.
 Qed.
